@@ -198,15 +198,22 @@ class C29Monitor(explore.Monitor):
 
   def finish(self, st, e):
     out = list(st.get("deferred", []))
-    if not out:
-      try:
-        quiet = not eng.apply(e, [["Calculate"]]).stored
-      except Exception:
-        quiet = False
-      if quiet:
-        out = self.check_groups(st, e, FINAL_GROUPS) or st.get("deferred", [])
+    try:
+      quiet = not eng.apply(e, [["Calculate"]]).stored
+    except Exception:
+      quiet = False
+    if quiet:
+      out = self.check_groups(st, e, FINAL_GROUPS) + out
     stat_sink(st)
-    return out[:1]
+    # explore() reports the first failure of a history: anything that does not look like one of the
+    # two recognisable root-cause patterns goes first, the recognisable ones are rotated
+    plain = [v for v in out if not (v[1].get("attribute_recorder") or
+                                    v[1].get("only_removals_of_nonexistent_rows"))]
+    known_looking = [v for v in out if v not in plain]
+    if known_looking:
+      k = st["calls"] % len(known_looking)
+      known_looking = known_looking[k:] + known_looking[:k]
+    return plain + known_looking
 
   def classify(self, clause, detail, bundle, history):
     if detail.get("attribute_recorder"):
